@@ -104,3 +104,88 @@ theorem C16_no_shared_writes :
   decide
 
 end Rbql
+
+namespace Rbql
+
+/-- iterating a framed step never changes the shared state, and acts on the own state as the step with that shared state fixed -/
+theorem iter_framed {γ σ : Type} (f : γ × σ → γ × σ) (hf : Frames f) (n : Nat) (g : γ) (s : σ) :
+    iter f n (g, s) = (g, iter (fun x => (f (g, x)).2) n s) := by
+  induction n generalizing s with
+  | zero => rfl
+  | succ k ih =>
+    simp only [iter]
+    have h1 : f (g, s) = (g, (f (g, s)).2) := by
+      have := hf g s
+      exact Prod.ext this rfl
+    rw [h1, ih]
+
+/-- **Isolation from the frame condition.** Two machines share module-level state `g`. If neither step ever changes it (the frame
+condition — for the real engine: what the regenerated footprint obligation `C16_no_shared_writes` says about the source), then under
+EVERY schedule each machine ends exactly where it ends running alone from the same `g`, and `g` is unchanged.  Unlike
+`C16_interleaving_independent` the steps here may READ the shared state; only writing is excluded. -/
+theorem C16_frame_implies_independence {γ σ₁ σ₂ : Type} (f₁ : γ × σ₁ → γ × σ₁) (f₂ : γ × σ₂ → γ × σ₂)
+    (h₁ : Frames f₁) (h₂ : Frames f₂) (sched : List Bool) (g : γ) (s₁ : σ₁) (s₂ : σ₂) :
+    interleaveShared f₁ f₂ sched (g, s₁, s₂) =
+      (g, (iter f₁ (sched.count true) (g, s₁)).2, (iter f₂ (sched.count false) (g, s₂)).2) := by
+  induction sched generalizing s₁ s₂ with
+  | nil => rfl
+  | cons b rest ih =>
+    cases b with
+    | true =>
+      simp only [interleaveShared, List.count_cons_self, List.count_cons_of_ne (by decide : true ≠ false)]
+      rw [h₁ g s₁, ih]
+      have e : f₁ (g, s₁) = (g, (f₁ (g, s₁)).2) := Prod.ext (h₁ g s₁) rfl
+      simp only [iter]
+      rw [← e]
+    | false =>
+      simp only [interleaveShared, List.count_cons_self, List.count_cons_of_ne (by decide : false ≠ true)]
+      rw [h₂ g s₂, ih]
+      have e : f₂ (g, s₂) = (g, (f₂ (g, s₂)).2) := Prod.ext (h₂ g s₂) rfl
+      simp only [iter]
+      rw [← e]
+
+/-- the engine's own steps are framed: `qStep` does not mention shared state at all -/
+theorem C16_engine_steps_are_framed {γ : Type} (q : SemQuery) (jm : JoinMap) : Frames (liftShared (γ := γ) (qStep q jm)) := by
+  intro g s; rfl
+
+/-- two real queries over ANY shared state, under ANY schedule that lets both finish: each outcome is the solo outcome -/
+theorem C16_interleaved_queries_with_shared_state {γ : Type} (g : γ) (q₁ q₂ : SemQuery) (jm₁ jm₂ : JoinMap) (A₁ A₂ : Table) (sched : List Bool)
+    (h₁ : A₁.length + 1 ≤ sched.count true) (h₂ : A₂.length + 1 ≤ sched.count false) :
+    let r := interleaveShared (liftShared (qStep q₁ jm₁)) (liftShared (qStep q₂ jm₂)) sched (g, qInit q₁ A₁, qInit q₂ A₂)
+    r.1 = g ∧
+    r.2.1.out = (iter (qStep q₁ jm₁) (A₁.length + 1) (qInit q₁ A₁)).out ∧
+    r.2.2.out = (iter (qStep q₂ jm₂) (A₂.length + 1) (qInit q₂ A₂)).out := by
+  intro r
+  have hr := C16_frame_implies_independence (liftShared (qStep q₁ jm₁)) (liftShared (qStep q₂ jm₂))
+    (C16_engine_steps_are_framed q₁ jm₁) (C16_engine_steps_are_framed q₂ jm₂) sched g (qInit q₁ A₁) (qInit q₂ A₂)
+  have hl : ∀ (q : SemQuery) (jm : JoinMap) (n : Nat) (s : QState), (iter (liftShared (γ := γ) (qStep q jm)) n (g, s)).2 = iter (qStep q jm) n s := by
+    intro q jm n
+    induction n with
+    | zero => intro s; rfl
+    | succ k ih => intro s; simp only [iter, liftShared]; exact ih _
+  have base := C16_interleaved_queries_equal_solo q₁ q₂ jm₁ jm₂ A₁ A₂ sched h₁ h₂
+  have hi := C16_interleaving_independent (qStep q₁ jm₁) (qStep q₂ jm₂) sched (qInit q₁ A₁) (qInit q₂ A₂)
+  simp only [hi] at base
+  refine ⟨by rw [show r = _ from hr], ?_, ?_⟩
+  · rw [show r = _ from hr]; simp only [hl]; exact base.1
+  · rw [show r = _ from hr]; simp only [hl]; exact base.2
+
+/-- **The frame condition is necessary.** A step that records a decision in shared state (the shape of the seeded change "one
+module-level NumHandler for AVG / VARIANCE") makes the second query's result depend on the schedule: alone it outputs its own
+values `[false, false]`; scheduled after one step of the first query (whose first value is `true`) it outputs `[true, true]`. -/
+theorem C16_shared_write_counterexample :
+    (iter sharedHandlerStep 2 (none, ([false, false], []))).2.2 = [false, false] ∧
+    (interleaveShared sharedHandlerStep sharedHandlerStep [true, false, false] (none, ([true], []), ([false, false], []))).2.2.2 = [true, true] ∧
+    ¬ Frames sharedHandlerStep := by
+  refine ⟨by decide, by decide, ?_⟩
+  intro h
+  have := h none ([true], [])
+  simp [sharedHandlerStep] at this
+
+/-- … and history dependence for the same step: run after a query that saw `true`, the query differs from its fresh run -/
+theorem C16_shared_write_history_counterexample :
+    (iter sharedHandlerStep 2 ((iter sharedHandlerStep 1 (none, ([true], []))).1, ([false, false], []))).2.2 = [true, true] ∧
+    (iter sharedHandlerStep 2 (none, ([false, false], []))).2.2 = [false, false] := by
+  decide
+
+end Rbql
